@@ -19,7 +19,11 @@ AST
 FUNCS = ["sqrt", "sin", "cos", "tan", "arcsin", "arccos", "arctan", "sinh", "cosh", "tanh",
          "arcsinh", "arccosh", "arctanh", "exp", "log"]
 
-N = lambda t: ("num", str(t))
+def N(t):
+    """numeric literal token; a leading sign is only legal inside a COMPLEX token (use U('-', N(..)) otherwise)"""
+    t = str(t)
+    assert t[0] not in "+-" or t[-1] in "jJ", "signed non-complex literal %r: use U('-', N(...))" % t
+    return ("num", t)
 V = lambda n: ("var", n)
 B = lambda o, a, b: ("bin", o, a, b)
 U = lambda o, e: ("un", o, e)
